@@ -227,7 +227,8 @@ PROPS = {
                T("TestC05Live", Q(12, timeout=400, shards=4, shrinktime="30s"), Q(80, timeout=1500, shards=8, shrinktime="90s")),
                T("TestC05Handover", Q(60, timeout=400, shrinktime="30s"), Q(400, timeout=1500, shards=6, shrinktime="90s")),
                T("TestC05Cluster", Q(2, timeout=500, shrinktime="5s"), Q(6, timeout=2400, shards=6, shrinktime="60s")),
-               T("TestC05Recreate", Q(25, timeout=400, shrinktime="20s"), Q(150, timeout=1500, shards=4, shrinktime="60s"))],
+               T("TestC05Recreate", Q(25, timeout=400, shrinktime="20s"), Q(150, timeout=1500, shards=4, shrinktime="60s")),
+               T("TestC05SnapshotLag", Q(1500), Q(40000, timeout=900, shards=2))],
         rule="TestC05: a real leader engine and a real follower engine (in-process, single-node clusters) wired like cmd/leader.go / cmd/follower.go with three Log servers (message-size limits 256 B, 4 KiB, 4 MiB; odd shards run "
              "the leader with the log cache on), real Snapshot/Metadata/KV services over loopback gRPC; the replication worker is built by the real factory and stepped by the harness (verif hook). Histories of 3-40 actions: leader put "
              "(values up to 3 KB) / delete / range delete / non-idempotent txn (if ctr==n then ctr:=n+1 else ctr:=0 + range delete), poll(one worker iteration against a drawn Log server, incl. snapshot recovery when the leader answers "
@@ -395,7 +396,7 @@ PROPS = {
 # Session 5: what was added to the generated domains / oracles (appended to the rule text each evidence file carries)
 RULE_ADDENDA = {
     "C02": "TestC02Table (session 5): an eighth of the transactions lose their acknowledgement from the raft stand-in (entry committed and applied, the table layer is told 'timeout'); oracle: one call puts at most one entry into the log, the model follows the log.",
-    "C05": "Session 5: the key alphabet holds the keys at the very end of the key space (1019 / 1024 bytes of 0xFF).",
+    "C05": "TestC05SnapshotLag (session 5): the table dump a follower recovers from, requested through table.ActiveTable.Snapshot on a leader node whose own copy lags behind the acknowledged writes (raft stand-in with two replicas): the declared index must cover every write acknowledged before the request, otherwise a follower that had replicated them would move backwards. The key alphabet holds the keys at the very end of the key space (1019 / 1024 bytes of 0xFF).",
     "C06": "Session 5: a replicate call may be served by a node whose OWN copy lags 1-4 entries behind the table's applied index (a consensus read catches it up, a local read does not) and whose first consensus read is refused with the raft library's transient busy error; no answer is fine then, an answer must be right with respect to the table's applied index.",
     "C07": "Session 5: TestC07Cluster in quiet mode (half of the cases) runs no reconcile round between the moment a restore returns and the moment every node has been judged - every node must look the table up as the new shard by catalogue propagation alone; records of 64-200 KiB also in the quick tier.",
     "C09": "Session 5: 'the maximum value size' of the large-value generators is table.MaxValueLen read from the code under test.",
